@@ -244,7 +244,9 @@ def gen(t, tier):
           'start_fail': t.pick([None] * 10 + [0, 0, 1, 2]),
           # what kind of callable the caller hands in: a plain function, a functools.partial, an object with __call__ or a bound
           # method (only the first has a __name__)
-          'callable': t.pick(['function', 'function', 'function', 'partial', 'object', 'method'])}
+          'callable': t.pick(['function', 'function', 'function', 'partial', 'object', 'method']),
+          # threads may also be switched between two statements of async_.py (line events), not only at queue operations
+          'linepreempt': t.pick([None, None, None, None, 4, 15])}
     if api.startswith('pool.') and t.chance(0.3):
         # the same pool object is used for a second call (after the first one returned or raised)
         m = t.randint(2, 5)
@@ -331,6 +333,8 @@ def run(sc, tape):
     from simkit.sched import simulate_module_primitives
     w = World(tape, policy=tuple(sc['policy']), step_cap=20000)
     simulate_module_primitives(w, async_)
+    if sc.get('linepreempt'):
+        w.sched.enable_line_preemption(['mapproxy/util/async_.py'], sc['linepreempt'])
     start_state = {'n': 0, 'fired': False}
     if sc.get('start_fail') is not None:
         class RefusedWorker(async_.ThreadWorker):
@@ -541,6 +545,8 @@ def run(sc, tape):
         probes['thread_start_refused'] = 1
     if sc.get('callable', 'function') != 'function':
         probes['callable_' + sc['callable']] = 1
+    if sched.line_yields:
+        probes['thread_switches_between_statements'] = sched.line_yields
     if probes_gc[0]:
         probes['gc_runs_during_second_call'] = probes_gc[0]
     if outs and outs[0].get('abandoned'):
